@@ -372,6 +372,15 @@ pub fn classify_schedule(fs: &[FSpec], headers: &[Header], chunks: &[Vec<u8>]) -
 // generators
 // ------------------------------------------------------------------------------------------------
 
+/// `Prng::new` maps consecutive seeds to consecutive generator states (seed s+1 = seed s shifted by one draw);
+/// pass the seed through a finalizer first so that different seeds give unrelated streams.
+pub fn seeded(seed: u64) -> Prng {
+    let mut z = seed.wrapping_add(0x5851_F42D_4C95_7F2D).wrapping_mul(0xD6E8_FEB8_6659_FD93);
+    z = (z ^ (z >> 32)).wrapping_mul(0xD6E8_FEB8_6659_FD93);
+    z ^= z >> 29;
+    Prng(z)
+}
+
 pub const FLOW: &[&str] = &["div", "p", "span", "ul", "li", "a", "b", "section", "h1", "em"];
 pub const VOIDS: &[&str] = &["br", "img", "meta", "link", "hr", "input"];
 const TEXTS: &[&str] = &[
